@@ -492,3 +492,183 @@ Proof.
   rewrite forallb_forall in S. specialize (S _ Hin). rewrite Ea, E2 in S. apply andb_true_iff in S. destruct S as [S1 S2].
   split; [apply negb_true_iff in S2; exact S2|]. right. apply existsb_eqb_in. exact S1.
 Qed.
+
+(* ---- the main induction ------------------------------------------------------------------------------------------- *)
+
+Lemma zleb_true a b : a <= b -> (a <=? b) = true.
+Proof. intros H. apply Z.leb_le. exact H. Qed.
+
+Lemma nt_of_vals :
+  nt_of prec_OpPrimary = Primary /\ nt_of prec_OpMember = Member /\ nt_of prec_OpCall = Call /\
+  nt_of prec_OpUpdate = Update /\ nt_of prec_OpUnary = Unary /\ nt_of prec_OpAssign = Assignment /\
+  nt_of prec_OpExpr = Expression /\ nt_of prec_OpCoalesce = Coalesce /\ nt_of prec_OpCompare = Relational.
+Proof. vm_compute. repeat split. Qed.
+
+Lemma chain1 inf a b ts t : In (a, b) chain_prods -> derives inf b ts t -> derives inf a ts t.
+Proof. intros. eapply D_chain; eauto. Qed.
+
+Lemma spells_derives_all q :
+  (forall inf ts t (s : spells q inf ts t), exists ts', dropc q ts ts' /\ derives inf (nt_of (lvl t)) ts' t) /\
+  (forall ats args (s : spells_args q ats args), exists ats', dropc q ats ats' /\ arguments ats' args).
+Proof.
+  pose proof prec_order as PO.
+  destruct nt_of_vals as [NP [NM [NC [NU [NY [NA [NE [NO NR]]]]]]]].
+  apply (spells_both_ind q
+           (fun inf ts t _ => exists ts', dropc q ts ts' /\ derives inf (nt_of (lvl t)) ts' t)
+           (fun ats args _ => exists ats', dropc q ats ats' /\ arguments ats' args)).
+  - (* leaf *)
+    intros inf k e Hv. exists [k]. split; [apply dropc_refl|].
+    destruct (pview_leaf_lvl _ _ Hv) as [El _]. rewrite El. replace primary with prec_OpPrimary by lia. rewrite NP.
+    destruct (leaf_tok _ _ Hv) as [[Hk E]|[Hk E]]; subst e; [apply D_ident|apply D_literal]; exact Hk.
+  - (* parenthesis *)
+    intros inf ko pG pS ts t kc Hv Ht [ts' [Hd Hder]] Hl Hkc.
+    exists (ko :: ts' ++ [kc]). split; [apply DC_keep; apply dropc_app; [exact Hd|apply dropc_refl]|].
+    cbn [lvl]. replace primary with prec_OpPrimary by lia. rewrite NP.
+    apply D_paren; auto.
+    + pose proof (pview_bare ko) as Hb. rewrite Hv in Hb. unfold pview in Hv.
+      destruct (ty ko =? tt_OpenParenToken) eqn:E; [apply Z.eqb_eq in E; exact E|].
+      exfalso. destruct Hb as [[Hb Hin]|Hb]; [|discriminate].
+      assert (S : forallb (fun t => match pview (bare t) with PGroup _ _ => t =? tt_OpenParenToken | _ => true end)
+                    (tt_DivToken :: tt_DivEqToken :: prefix_tokens) = true) by (vm_compute; reflexivity).
+      rewrite forallb_forall in S. specialize (S _ Hin). rewrite Hb in S. congruence.
+    + eapply (lift_to true Expression ts' t (fun _ => true)); [exact lf_expression|eapply spells_lvl_in; exact Ht|reflexivity|exact Hder].
+  - (* parenthesis with a trailing comma *)
+    intros inf ko pG pS ts t km kc Hq Hv Ht [ts' [Hd Hder]] Hl Hkm Hkc. subst q.
+    exists (ko :: ts' ++ [kc]). split.
+    { apply DC_keep. apply dropc_app; [exact Hd|]. apply DC_drop; auto. apply DC_nil. }
+    cbn [lvl]. replace primary with prec_OpPrimary by lia. rewrite NP.
+    apply D_paren; auto.
+    + pose proof (pview_bare ko) as Hb. rewrite Hv in Hb.
+      destruct (ty ko =? tt_OpenParenToken) eqn:E; [apply Z.eqb_eq in E; exact E|].
+      exfalso. destruct Hb as [[Hb Hin]|Hb]; [|discriminate].
+      assert (S : forallb (fun t => match pview (bare t) with PGroup _ _ => t =? tt_OpenParenToken | _ => true end)
+                    (tt_DivToken :: tt_DivEqToken :: prefix_tokens) = true) by (vm_compute; reflexivity).
+      rewrite forallb_forall in S. specialize (S _ Hin). rewrite Hb in S. congruence.
+    + eapply (lift_to true Expression ts' t (fun _ => true)); [exact lf_expression|eapply spells_lvl_in; exact Ht|reflexivity|exact Hder].
+  - (* prefix operator *)
+    intros inf k pG pO pS pN ts x Hv Hx [ts' [Hd Hder]] Hl.
+    pose proof (pfact_all k) as PF. rewrite Hv in PF. cbn [pfact] in PF. b2p.
+    exists (k :: ts'). split; [apply DC_keep; exact Hd|].
+    assert (Hnp : is_postfix_op pO = false) by (destruct (is_postfix_op pO); [discriminate|reflexivity]).
+    cbn [lvl]. rewrite Hnp, NY.
+    assert (Hux : derives inf Unary ts' x).
+    { eapply (lift_to inf Unary ts' x (fun p => prec_OpUnary <=? p)); [exact lf_unary|eapply spells_lvl_in; exact Hx|apply zleb_true; lia|exact Hder]. }
+    destruct (unary_prod _ _ _ _ _ Hv) as [Hp|Hp].
+    + eapply D_unary; eauto.
+    + eapply chain1; [|eapply D_prefix_update; eauto]. cbn. tauto.
+  - (* postfix operator *)
+    intros inf k pL pR pO pN xs x Hv Hlt Hx [xs' [Hd Hder]] Hl.
+    view_facts0 inf k Hv.
+    exists (xs' ++ [k]). split; [apply dropc_app; [exact Hd|apply dropc_refl]|].
+    cbn [lvl]. rewrite H1, NU.
+    eapply D_postfix; eauto using post_prod.
+    eapply (lift_to inf LHS xs' x (fun p => prec_OpLHS <=? p)); [exact lf_lhs|eapply spells_lvl_in; exact Hx|apply zleb_true; lia|exact Hder].
+  - (* binary operator *)
+    intros inf k pL pR pX pS pN xs x ys y Hv Hx [xs' [Hdx Hderx]] Hok Hy [ys' [Hdy Hdery]] Hl.
+    exists (xs' ++ k :: ys'). split; [apply dropc_app; [exact Hdx|apply DC_keep; exact Hdy]|].
+    cbn [lvl]. rewrite (bin_level_of _ _ _ _ _ _ _ Hv).
+    pose proof (bin_ok_all inf (ty k)) as BO. unfold bin_ok in BO. rewrite Hv in BO.
+    pose proof (spells_lvl_in _ _ _ _ Hx) as Hinx. pose proof (spells_lvl_in _ _ _ _ Hy) as Hiny.
+    destruct (ty k =? tt_NullishToken) eqn:En.
+    { apply Z.eqb_eq in En. rewrite En, view_nullish in Hv. inversion Hv; subst. rewrite NO.
+      apply D_coalesce; auto.
+      - eapply (lift_to inf CoalesceHead xs' x _ lf_coalescehead); eauto.
+      - eapply (lift_to inf BitOR ys' y _ lf_bitor); eauto. apply zleb_true. exact Hl. }
+    destruct (ty k =? tt_InToken) eqn:Ei.
+    { apply Z.eqb_eq in Ei. subst inf. rewrite Ei, view_in in Hv. inversion Hv; subst. rewrite NR.
+      apply D_in; auto.
+      - eapply (lift_to true Relational xs' x _ lf_relational); eauto.
+      - eapply (lift_to true Shift ys' y _ lf_shift); eauto. apply zleb_true. exact Hl. }
+    destruct (prod_for (ty k)) as [[[[a l] ops] r]|] eqn:Ep; [|discriminate].
+    apply andb_true_iff in BO. destruct BO as [B1 B2]. apply internal_nt_dec_bl in B1. rewrite B1.
+    destruct (prod_for_in _ _ _ _ _ Ep) as [Hp Hop].
+    rewrite forallb_forall in B2.
+    pose proof (B2 _ Hinx) as Bx. pose proof (B2 _ Hiny) as By.
+    apply andb_true_iff in Bx. destruct Bx as [Bx _]. apply andb_true_iff in By. destruct By as [_ By].
+    rewrite Hok in Bx. rewrite (zleb_true _ _ Hl) in By. cbn [implb] in Bx, By.
+    eapply D_binary; eauto.
+    + eapply derives_chain_star; [apply (reachb_sound _ _ _ Bx)|exact Hderx].
+    + eapply derives_chain_star; [apply (reachb_sound _ _ _ By)|exact Hdery].
+  - (* dot *)
+    intros inf kd pR pC xs x n Hv Hx [xs' [Hd Hder]] Hl Hn Hp.
+    view_facts0 inf kd Hv.
+    assert (Hkd : ty kd = tt_DotToken).
+    { pose proof (sview_sweep_t (fun t v => match v with ADot _ _ => t =? tt_DotToken | _ => true end)) as S.
+      specialize (S (fun _ => eq_refl) ltac:(vm_compute; reflexivity) inf (ty kd)). rewrite Hv in S. apply Z.eqb_eq in S. exact S. }
+    exists (xs' ++ [kd; n]). split; [apply dropc_app; [exact Hd|apply dropc_refl]|].
+    pose proof (spells_lvl_in _ _ _ _ Hx) as Hin.
+    cbn [lvl]. destruct (lhs_levels _ Hin ltac:(lia)) as [E|[E|E]]; rewrite E in *.
+    + rewrite cap_le by lia. rewrite NC in *. apply D_call_dot; auto.
+    + rewrite cap_ge by lia. rewrite NM in *. apply D_member_dot; auto.
+    + rewrite cap_ge by lia. rewrite NM. apply D_member_dot; auto. rewrite NP in Hder. eapply chain1; [|exact Hder]. cbn. tauto.
+  - (* index *)
+    intros inf ko pR pC pS xs x ys y kc Hv Hx [xs' [Hdx Hderx]] Hl Hy [ys' [Hdy Hdery]] Hly Hkc.
+    view_facts0 inf ko Hv.
+    assert (Hko : ty ko = tt_OpenBracketToken).
+    { pose proof (sview_sweep_t (fun t v => match v with AIndex _ _ _ => t =? tt_OpenBracketToken | _ => true end)) as S.
+      specialize (S (fun _ => eq_refl) ltac:(vm_compute; reflexivity) inf (ty ko)). rewrite Hv in S. apply Z.eqb_eq in S. exact S. }
+    exists (xs' ++ ko :: ys' ++ [kc]). split.
+    { apply dropc_app; [exact Hdx|]. apply DC_keep. apply dropc_app; [exact Hdy|apply dropc_refl]. }
+    assert (Hey : derives true Expression ys' y).
+    { eapply (lift_to true Expression ys' y (fun _ => true)); [exact lf_expression|eapply spells_lvl_in; exact Hy|reflexivity|exact Hdery]. }
+    pose proof (spells_lvl_in _ _ _ _ Hx) as Hin.
+    cbn [lvl]. destruct (lhs_levels _ Hin ltac:(lia)) as [E|[E|E]]; rewrite E in *.
+    + rewrite cap_le by lia. rewrite NC in *. apply D_call_index; auto.
+    + rewrite cap_ge by lia. rewrite NM in *. apply D_member_index; auto.
+    + rewrite cap_ge by lia. rewrite NM. apply D_member_index; auto. rewrite NP in Hderx. eapply chain1; [|exact Hderx]. cbn. tauto.
+  - (* call *)
+    intros inf ko pL pR pC xs x ats args Hv Hx [xs' [Hdx Hderx]] Hl Ha [ats' [Hda Hargs]].
+    view_facts0 inf ko Hv.
+    assert (Hko : ty ko = tt_OpenParenToken).
+    { pose proof (sview_sweep_t (fun t v => match v with ACall _ _ _ => t =? tt_OpenParenToken | _ => true end)) as S.
+      specialize (S (fun _ => eq_refl) ltac:(vm_compute; reflexivity) inf (ty ko)). rewrite Hv in S. apply Z.eqb_eq in S. exact S. }
+    exists (xs' ++ ko :: ats'). split; [apply dropc_app; [exact Hdx|apply DC_keep; exact Hda]|].
+    pose proof (spells_lvl_in _ _ _ _ Hx) as Hin.
+    cbn [lvl]. destruct (lhs_levels _ Hin ltac:(lia)) as [E|[E|E]]; rewrite E in *.
+    + rewrite cap_ge by lia. rewrite NC in *. apply D_call_call; auto.
+    + rewrite cap_ge by lia. rewrite NC. rewrite NM in Hderx. apply D_call_member; auto.
+    + rewrite cap_ge by lia. rewrite NC. apply D_call_member; auto. rewrite NP in Hderx. eapply chain1; [|exact Hderx]. cbn. tauto.
+  - (* conditional *)
+    intros inf kq pL pR pS pE pN cs c xs x kc ys y Hv Hc [cs' [Hdc Hderc]] Hlc Hx [xs' [Hdx Hderx]] Hlx Hkc Hy [ys' [Hdy Hdery]] Hly.
+    view_facts0 inf kq Hv.
+    assert (Hkq : ty kq = tt_QuestionToken).
+    { pose proof (sview_sweep_t (fun t v => match v with ACond _ _ _ _ _ => t =? tt_QuestionToken | _ => true end)) as S.
+      specialize (S (fun _ => eq_refl) ltac:(vm_compute; reflexivity) inf (ty kq)). rewrite Hv in S. apply Z.eqb_eq in S. exact S. }
+    exists (cs' ++ kq :: xs' ++ kc :: ys'). split.
+    { apply dropc_app; [exact Hdc|]. apply DC_keep. apply dropc_app; [exact Hdx|]. apply DC_keep. exact Hdy. }
+    cbn [lvl]. rewrite NA. eapply chain1; [cbn; tauto|].
+    apply D_cond; auto.
+    + eapply (lift_to inf ShortCircuit cs' c (fun p => prec_OpCoalesce <=? p)); [exact lf_shortcircuit|eapply spells_lvl_in; exact Hc|apply zleb_true; lia|exact Hderc].
+    + eapply (lift_to true Assignment xs' x (fun p => prec_OpAssign <=? p)); [exact lf_assignment|eapply spells_lvl_in; exact Hx|apply zleb_true; lia|exact Hderx].
+    + eapply (lift_to inf Assignment ys' y (fun p => prec_OpAssign <=? p)); [exact lf_assignment|eapply spells_lvl_in; exact Hy|apply zleb_true; lia|exact Hdery].
+  - (* comma *)
+    intros inf k pL pS pN xs x ys y Hv Hx [xs' [Hdx Hderx]] Hy [ys' [Hdy Hdery]] Hl.
+    view_facts0 inf k Hv.
+    exists (xs' ++ k :: ys'). split; [apply dropc_app; [exact Hdx|apply DC_keep; exact Hdy]|].
+    replace (lvl (comma_snoc x y)) with prec_OpExpr by (destruct x; reflexivity). rewrite NE.
+    apply D_comma.
+    + eapply (lift_to inf Expression xs' x (fun _ => true)); [exact lf_expression|eapply spells_lvl_in; exact Hx|reflexivity|exact Hderx].
+    + eapply sview_comma_tok; exact Hv.
+    + eapply (lift_to inf Assignment ys' y (fun p => prec_OpAssign <=? p)); [exact lf_assignment|eapply spells_lvl_in; exact Hy|apply zleb_true; lia|exact Hdery].
+  - (* arguments *)
+    intros kc Hkc. exists [kc]. split; [apply dropc_refl|apply A_end; exact Hkc].
+  - intros ts a kc Ha [ts' [Hd Hder]] Hl Hkc. exists (ts' ++ [kc]). split; [apply dropc_app; [exact Hd|apply dropc_refl]|].
+    apply A_last; auto.
+    eapply (lift_to true Assignment ts' a (fun p => prec_OpAssign <=? p)); [exact lf_assignment|eapply spells_lvl_in; exact Ha|apply zleb_true; lia|exact Hder].
+  - intros ts a km rest l Ha [ts' [Hd Hder]] Hl Hkm Hr [rest' [Hdr Hargs]].
+    exists (ts' ++ km :: rest'). split; [apply dropc_app; [exact Hd|apply DC_keep; exact Hdr]|].
+    apply A_cons; auto.
+    eapply (lift_to true Assignment ts' a (fun p => prec_OpAssign <=? p)); [exact lf_assignment|eapply spells_lvl_in; exact Ha|apply zleb_true; lia|exact Hder].
+Qed.
+
+Theorem spells_derives q inf ts t :
+  spells q inf ts t -> exists ts', dropc q ts ts' /\ derives inf (nt_of (lvl t)) ts' t.
+Proof. intros s. exact (proj1 (spells_derives_all q) inf ts t s). Qed.
+
+(* at the top: an Expression *)
+Theorem spells_derives_expression q inf ts t :
+  spells q inf ts t -> exists ts', dropc q ts ts' /\ derives inf Expression ts' t.
+Proof.
+  intros s. destruct (spells_derives _ _ _ _ s) as [ts' [Hd Hder]]. exists ts'. split; [exact Hd|].
+  eapply (lift_to inf Expression ts' t (fun _ => true)); [exact lf_expression|eapply spells_lvl_in; exact s|reflexivity|exact Hder].
+Qed.
